@@ -203,33 +203,32 @@ Definition remove_head_multi (q : q1) (n : nat) : q1 * nat :=
    array is never shorter than the items that are kept, the copy loop moves
    min(_itemCount, kept) items, and slots newly exposed by setNumItems are default items
    also for trivial item types. *)
+Definition es_need_realloc (q : q1) (size extra : nat) (shrink : bool) : bool :=
+  match st q with
+  | SNull => true
+  | _ => if shrink then negb (qsize q =? size + extra) else qsize q <? size
+  end.
+(* the reallocation: items are copied to the front of the new array *)
+Definition es_realloc (q : q1) (size extra : nat) : q1 :=
+  let temp := Nat.max (size + extra) (cnt q) in
+  let newlen := Nat.max sq temp in
+  let to_small := match st q with SSmall => false | _ => newlen <=? sq end in
+  let items := abs q in
+  let newarr := items ++ repeat fresh (newlen - length items) in
+  let c := cnt q in
+  mkQ (if to_small then SSmall else SHeap) newarr c 0 (c - 1).
+(* setNumItems with size > _itemCount: the new items must be default items *)
+Definition es_grow (q : q1) (size : nat) : q1 :=
+  let grown := mkQ (st q) (arr q) size (head q) (prev_index q (intern q size)) in
+  (* fill the newly exposed slots for trivial types (owning slots are default already) *)
+  if owning then grown
+  else fold_left (fun g i => setu g i dflt) (seq (cnt q) (size - cnt q)) grown.
 Definition ensure_size (q : q1) (size : nat) (setnum : bool) (extra : nat) (shrink : bool) : q1 :=
   (* a shrinking setNumItems first drops the surplus tail items *)
   let q := if setnum && (size <? cnt q) then fst (remove_tail_multi q (cnt q - size)) else q in
-  let need_realloc :=
-    match st q with
-    | SNull => true
-    | _ => if shrink then negb (qsize q =? size + extra) else qsize q <? size
-    end in
-  let q' :=
-    if need_realloc then
-      let temp := Nat.max (size + extra) (cnt q) in
-      let newlen := Nat.max sq temp in
-      let to_small := match st q with SSmall => false | _ => newlen <=? sq end in
-      let items := abs q in
-      let newarr := items ++ repeat fresh (newlen - length items) in
-      let c := cnt q in
-      mkQ (if to_small then SSmall else SHeap) newarr c 0 (c - 1)
-    else q in
+  let q' := if es_need_realloc q size extra shrink then es_realloc q size extra else q in
   if setnum then
-    if cnt q' <? size then
-      (* grow: the new items must be default items *)
-      let grown := mkQ (st q') (arr q') size (head q')
-                       (prev_index q' (intern q' size)) in
-      (* fill the newly exposed slots for trivial types (owning slots are default already) *)
-      if owning then grown
-      else fold_left (fun g i => setu g i dflt) (seq (cnt q') (size - cnt q')) grown
-    else q'
+    if cnt q' <? size then es_grow q' size else q'
   else q'.
 
 (* AddTail(item) / AddHead(item) *)
